@@ -278,6 +278,14 @@ pub fn last_state_proof_mutants(
         p2.reorg.remove(1);
         out.push(Mutant { label: "reproved.reorg-hole".into(), attr: "match", msg: reprove(&p2) });
     }
+    // (d') a hole inside the reorg section with the count and both ends' numbers kept: one inner header is dropped
+    // and the header below the first one is shown instead, so that only the parent-hash chain notices
+    if plan.reorg.len() >= 3 && plan.reorg[0] >= 1 {
+        let mut p2 = plan.clone();
+        p2.reorg.remove(1);
+        p2.reorg.insert(0, plan.reorg[0] - 1);
+        out.push(Mutant { label: "reproved.reorg-gap-same-count".into(), attr: "cont", msg: reprove(&p2) });
+    }
     // (e) reorg section not ending right below the start
     if plan.reorg.len() >= 2 {
         let mut p2 = plan.clone();
